@@ -140,7 +140,7 @@ def _fl(q):
 def _poly(ctx, p, rng):
     N, M, rec = p['N'], p['M'], p['rec']
     polys = [PP.random_poly(rng, N, 4, 4) for _ in range(M)]
-    style = int(rng.integers(6))
+    style = int(rng.integers(12))
 
     def f(x):
         return PP.evaluate(algopy, polys, x, -1 - style)          # always a vector of length M
